@@ -4,7 +4,7 @@ From stdpp Require Import gmap.
 From Coq Require Import ZArith.
 From V Require Import Base.Res Sched.LedgerModel Sched.StmtModel Sched.GangModel Sched.CycleModel Sched.LedgerInvP
                       Sched.NodeCapLemmas Sched.NodeCapLemmasCycle Sched.NodeCapCheck Sched.NodeCapLemmasEvict Sched.NodeCapEvictEx
-                      C02.BindModel C02.BindLemmas.
+                      Sched.NodeSumLemmas Sched.NodeSumCheck C02.BindModel C02.BindLemmas C02.BindEx.
 Open Scope Z_scope.
 
 (* A.1  NodeInfo.AddTask under the guard of its caller keeps the node within capacity *)
@@ -72,6 +72,49 @@ Theorem C02_cycle_no_overcommit : forall eps, 0 < eps -> forall w ops k i n,
 Proof. exact cycle_no_overcommit. Qed.
 Print Assumptions C02_cycle_no_overcommit.
 
+(* THE PROPERTY'S WORDING, cycles (audit W1): in every state reached by any list of allocate
+   attempts and backfill placements from a world that is within capacity and whose node ledgers
+   account for the copies they hold, on every node with a Node object and every guarded dimension:
+   the summed requests of the held tasks (all but the pipelined ones: bound, binding, allocated,
+   running, terminating) stay below allocatable + eps, and the summed pipelined requests below what
+   the node will have free once its terminating tasks are gone (allocatable - staying) + eps *)
+Theorem C02_cycle_sums_within_allocatable : forall eps, 0 < eps -> forall w ops k i n d,
+  world_ok eps w -> nodes_acct (nodes (w_sess w)) ->
+  nodes (w_sess (run eps w (take k ops))) !! i = Some n -> n_has_node n = true -> guarded_dim d ->
+  csum (used_amt d) (n_tasks n) < amt (n_alloc n) d + eps /\
+  csum (pip_amt d) (n_tasks n) < (amt (n_alloc n) d - (csum (used_amt d) (n_tasks n) - csum (rel_amt d) (n_tasks n))) + eps.
+Proof. exact cycle_sums_within_allocatable. Qed.
+Print Assumptions C02_cycle_sums_within_allocatable.
+
+(* the ledger identity is an invariant of AddTask / RemoveTask, hence of every sequence of them
+   (every step of the skeleton is such a sequence: C02_step_is_guarded_node_ops) *)
+Theorem C02_node_add_acct : forall eps n t n' t',
+  node_acct n -> nonneg (t_req t) -> node_add eps n t = inl (n', t') -> node_acct n'.
+Proof. exact node_add_acct. Qed.
+Print Assumptions C02_node_add_acct.
+
+Theorem C02_node_remove_acct : forall n tid, node_acct n -> node_acct (node_remove n tid).
+Proof. exact node_remove_acct. Qed.
+Print Assumptions C02_node_remove_acct.
+
+Theorem C02_nsteps_acct : forall eps a b, nsteps eps a b -> nodes_acct a -> nodes_acct b.
+Proof. exact nsteps_acct. Qed.
+Print Assumptions C02_nsteps_acct.
+
+(* on a grid of step g >= eps the tolerance disappears: <= exactly *)
+Theorem C02_sums_within_allocatable_grid : forall eps g n d,
+  0 < eps -> eps <= g ->
+  node_within_capacity eps n -> node_acct n -> n_has_node n = true -> guarded_dim d -> node_on_grid g n d ->
+  csum (used_amt d) (n_tasks n) <= amt (n_alloc n) d /\
+  csum (pip_amt d) (n_tasks n) <= amt (n_alloc n) d - (csum (used_amt d) (n_tasks n) - csum (rel_amt d) (n_tasks n)).
+Proof. exact sums_within_allocatable_grid. Qed.
+Print Assumptions C02_sums_within_allocatable_grid.
+
+(* the executable accounting check used by law 113 is sound *)
+Theorem C02_nodes_acct_b_sound : forall ns, nodes_acct_b ns = true -> nodes_acct ns.
+Proof. exact nodes_acct_b_sound. Qed.
+Print Assumptions C02_nodes_acct_b_sound.
+
 Theorem C02_best_effort_zero : forall eps, 0 < eps -> forall t d,
   task_ok eps t -> t_best_effort t = true -> guarded_dim d -> amt (t_req t) d = 0.
 Proof. exact best_effort_zero. Qed.
@@ -84,13 +127,6 @@ Theorem C02_grid_no_overcommit : forall eps g,
   sum_amt (used_amt d) (copies n) - sum_amt (rel_amt d) (copies n) + sum_amt (pip_amt d) (copies n) <= amt (n_alloc n) d.
 Proof. exact grid_no_overcommit. Qed.
 Print Assumptions C02_grid_no_overcommit.
-
-(* A.4 *)
-Theorem C02_tolerance_bounded : forall eps, 0 < eps -> forall w ops k i n d,
-  world_ok eps w -> nodes (w_sess (run eps w (take k ops))) !! i = Some n -> guarded_dim d ->
-  - eps < amt (n_idle n) d /\ - eps < amt (n_idle n) d + amt (n_releasing n) d - amt (n_pipelined n) d.
-Proof. exact tolerance_bounded. Qed.
-Print Assumptions C02_tolerance_bounded.
 
 (* the executable hypothesis check used by law 113 is sound *)
 Theorem C02_world_ok_b_sound : forall eps w, 0 < eps -> world_ok_b eps w = true -> world_ok eps w.
@@ -114,13 +150,6 @@ Theorem C02_agent_bind_admission_safe : forall eps, 0 < eps -> forall ns l k,
   nodes_all (idle_ok eps) ns -> nodes_all (idle_ok eps) (agent_state eps ns (take k l)).
 Proof. exact agent_bind_admission_safe. Qed.
 Print Assumptions C02_agent_bind_admission_safe.
-
-Theorem C02_accepted_bind_was_checked : forall eps c r,
-  snd (add_bind_task eps c r) = BOk ->
-  exists n t, c_nodes c !! b_node r = Some n /\ c_heap c !! b_task r = Some t /\
-    (n_has_node n = true -> less_equal_names eps (t_req t) (n_idle n) DZero = true).
-Proof. exact accepted_bind_was_checked. Qed.
-Print Assumptions C02_accepted_bind_was_checked.
 
 Theorem C02_rejected_bind_unchanged : forall eps c r,
   heap_keyed (c_heap c) -> snd (add_bind_task eps c r) <> BOk ->
@@ -166,14 +195,6 @@ Theorem C02_cache_event_keeps : forall eps, 0 < eps -> forall c e,
 Proof. exact cache_event_keeps. Qed.
 Print Assumptions C02_cache_event_keeps.
 
-(* a bind in flight keeps its reservation: updatePod ignores an update whose object has no
-   nodeName for a pod the cache holds in an allocated status *)
-Theorem C02_update_unbound_keeps_reservation : forall eps c tid st,
-  c_heap c !! tid = Some st -> allocated_status (t_status st) = true ->
-  cache_event eps c (EvUpdateUnbound tid) = c.
-Proof. exact update_unbound_keeps_reservation. Qed.
-Print Assumptions C02_update_unbound_keeps_reservation.
-
 Theorem C02_bind_events_safe : forall eps, 0 < eps -> forall l c k,
   cinv eps c -> ops_ok eps c l -> cinv eps (ops_state eps c (take k l)).
 Proof. exact bind_events_safe. Qed.
@@ -183,6 +204,49 @@ Theorem C02_bind_events_idle : forall eps, 0 < eps -> forall l c k i n,
   cinv eps c -> ops_ok eps c l -> c_nodes (ops_state eps c (take k l)) !! i = Some n -> n_has_node n = true -> idle_ok eps n.
 Proof. exact bind_events_idle. Qed.
 Print Assumptions C02_bind_events_idle.
+
+(* THE PROPERTY'S WORDING, bind admission (audit W1): in every state reached by any history of
+   AddBindTask calls and cache events, on every node that has its Node object: the summed requests
+   of ALL the tasks the node holds stay below allocatable + eps *)
+Theorem C02_bind_events_sums : forall eps, 0 < eps -> forall l c k i n d,
+  cinv eps c -> ops_ok eps c l -> c_nodes (ops_state eps c (take k l)) !! i = Some n -> n_has_node n = true -> guarded_dim d ->
+  csum (used_amt d) (n_tasks n) < amt (n_alloc n) d + eps /\
+  csum (used_amt d) (n_tasks n) = csum (req_amt d) (n_tasks n).
+Proof. exact bind_events_sums. Qed.
+Print Assumptions C02_bind_events_sums.
+
+(* SetNode leaves a node that accounts for exactly the copies it holds *)
+Theorem C02_node_set_acct : forall n alloc,
+  sc alloc <> None -> (forall k c, n_tasks n !! k = Some c -> nonneg (t_req c)) ->
+  node_acct (node_set n alloc) /\ n_alloc (node_set n alloc) = alloc.
+Proof. exact node_set_acct. Qed.
+Print Assumptions C02_node_set_acct.
+
+(* the agent scheduler's cache: binds interleaved with the same events (audit W6) *)
+Theorem C02_agent_events_safe : forall eps, 0 < eps -> forall tasks l ns k,
+  nodes_all (bnode_ok eps) ns -> agent_ops_ok eps tasks ns l ->
+  nodes_all (bnode_ok eps) (fold_left (agent_step eps tasks) (take k l) ns).
+Proof. exact agent_events_safe. Qed.
+Print Assumptions C02_agent_events_safe.
+
+(* a target without Node object is refused and nothing is touched (after fix 8dab8c3) *)
+Theorem C02_bind_needs_node_object : forall eps c r n,
+  c_nodes c !! b_node r = Some n -> n_has_node n = false ->
+  fst (add_bind_task eps c r) = c /\ snd (add_bind_task eps c r) <> BOk.
+Proof. exact bind_needs_node_object. Qed.
+Print Assumptions C02_bind_needs_node_object.
+
+(* pre-fix witness: with the AddBindTask of before fix 8dab8c3 "rejects instead of overcommitting" was
+   false for a target without Node object (audit W7; reproduced on the real cache before the fix) *)
+Theorem C02_bind_to_placeholder_unchecked_refuted :
+  cinv_b 2 bx_cache = true /\
+  ops_results_prefix 2 bx_cache bx_bad_ops = [None; Some BOk; None] /\
+  n_has_node (bx_node (ops_state_prefix 2 bx_cache bx_bad_ops)) = true /\
+  n_alloc (bx_node (ops_state_prefix 2 bx_cache bx_bad_ops)) = bx_alloc /\
+  csum (used_amt DCpu) (n_tasks (bx_node (ops_state_prefix 2 bx_cache bx_bad_ops))) = 64000 /\ amt bx_alloc DCpu = 48000 /\
+  ~ idle_ok 2 (bx_node (ops_state_prefix 2 bx_cache bx_bad_ops)).
+Proof. exact bind_to_placeholder_unchecked_refuted. Qed.
+Print Assumptions C02_bind_to_placeholder_unchecked_refuted.
 
 (* C  evictions (preempt / reclaim) *)
 
@@ -298,3 +362,11 @@ Example C02_idle_plus_releasing_overcounts :
   | inr _ => true
   end = false.
 Proof. exact idle_plus_releasing_overcounts. Qed.
+
+(* accounting hypothesis satisfiable; bind_events_safe's hypotheses hold of an accepted bind followed by
+   a node update with the same allocatable *)
+Example C02_acct_hypotheses_satisfiable : world_ok 2 acct_world /\ nodes_acct (nodes (w_sess acct_world)).
+Proof. exact acct_world_ok. Qed.
+
+Example C02_bind_events_hypotheses_satisfiable : cinv 2 bx_cache /\ ops_ok 2 bx_cache bx_ops.
+Proof. exact bx_hypotheses. Qed.
